@@ -648,7 +648,8 @@ func (e *Exec) appendOp(st *State, cc *ssa.CallCommon, args []Val, dst ssa.Value
 	}
 	slen, soff := "(s-len "+s.S+")", "(s-off "+s.S+")"
 	nlen := e.sc.define("applen", idx, e.add(slen, tlen))
-	e.check(st, "alloc", "append:"+e.srcText(cc.Pos()), e.le(nlen, e.sc.idxLit(maxLen)), cc.Pos())
+	// assumption (stated in the evidence): a slice never grows beyond 2^40 elements
+	e.assume(st, e.le(nlen, e.sc.idxLit(maxLen)))
 	ref := e.allocRef(st)
 	// The new backing array is a copy of the old one (same offset) with the
 	// appended elements written after the old length. If the appended slice
